@@ -89,7 +89,9 @@ CLAIMED["C04"] = dict(
 CLAIMED["C10"] = dict(
     engine="tlc+selection", design_ref="4.10",
     technique="TLA+ reference argmax (RefClassic) checked equal to the modelled classic routing by TLC on every "
-              "vector; every vector replayed through the real handle_srt_packet in classic mode",
+              "vector; every vector replayed through the real handle_srt_packet in classic mode"
+              "; the UNMODIFIED event loop (run_sender_with_config on a paused clock, real sockets) recorded end to end and "
+              "validated by TLC against the observer Trace_Loop.tla (a classic window never grows without ACKs, incl. after run-time mode switches)",
     text="TLC checks that classic mode with the guard off routes every packet kind to the lowest-index usable link "
          "of maximal window div (in-flight + queued + 1); the real handle_srt_packet must pick exactly that link on "
          "every materialised vector (windows carry random remainders so equal integer quotients with different "
